@@ -15,7 +15,8 @@ RULE = ("twin execution with a transformation instead of a scale: for random inv
         "compared: t*join(...) == join(t*...), t*meet(...) == meet(t*...), equal answers of contains / is_tangent / quadric.contains / "
         "is_coplanar / is_collinear, equal cross ratios, polytope vertices = images of the vertices in order. The basis-point transform "
         "SubspaceTensor._matrix_transform is compared with the exact action model on every call. "
-        "Non-trivial = t is not a multiple of the identity; distinct by (matrix, configuration) digest.")
+        "Non-trivial = t is not a multiple of the identity; distinct by (matrix, configuration) digest."
+        " Also 8x8 collections of transformations (batched inverse kernels) and transformations edited in place.")
 SHARDS = (8, 16)
 REQUIRED = ["commute.join", "commute.meet", "incidence", "crossratio", "matrix_transform", "polytope"]
 ASSUMPTIONS = ["exact inverse for integer matrices; numpy trusted for floats"]
